@@ -9,7 +9,8 @@
    {'file': 'compat/libc/stdlib/qsort.c', 'func': 'swap', 'ghost': 'g_memcpy_v = g_memcpy_k < size ? temp[g_memcpy_k] : 0;', 'at': 'before', 'anchor': 'memcpy(fst, temp, size);'},
  ],
  'kf': ['C11_qsort_swap_self'],
- 'witness': {'unwind': 8},
+ 'fallback': 'ghost-free',
+ 'witness': {'unwind': 24, 'defines': ['VC_WIT_MAXOBJ=22'], 'fallback_replace': []},
  'trusted': ['memcpy through the ISO 7.24.2.1 contract of contracts/libc_contracts.h (proved for the shim memcpy by C08 libc_memcpy_contract)'],
  'assumptions': ['swap: both blocks lie inside the same array object; they are disjoint or (known finding C11_qsort_swap_self) identical - the only two situations qsort creates'],
 } @*/
@@ -28,14 +29,21 @@ void harness(void)
     WIT(size_t, off2);
     WIT(size_t, k);
     WIT(size_t, m);
-    WIT_ARR(uchar, content, 6);
+    WIT_ARR(uchar, content, 22);
     __CPROVER_assume(total <= VC_MAXOBJ && size >= 1 && size <= total);
     __CPROVER_assume(off1 <= total - size && off2 <= total - size);
     /* qsort swaps two different elements (disjoint blocks) or - known finding - an element with itself */
     int self = (off1 == off2);
     int disjoint = (off1 + size <= off2 || off2 + size <= off1);
     __CPROVER_assume(KF_C11_qsort_swap_self == 0 ? (disjoint || self) : KF_C11_qsort_swap_self == 1 ? disjoint : self);
+#if VC_FALLBACK
+    /* bounded fallback run (no contracts, cbmc's byte-level memcpy model): an object of symbolic size makes that
+     * run exhaust memory, so the array has the fixed size VC_WIT_MAXOBJ there; the blocks are still anywhere inside */
+    __CPROVER_assume(total == VC_MAXOBJ);
+    uchar *a = NEW_OBJ(VC_MAXOBJ);
+#else
     uchar *a = NEW_OBJ(total);
+#endif
     FILL(a, total, content);
     __CPROVER_assume(k < size);
     __CPROVER_assume(m < total && !(m >= off1 && m < off1 + size) && !(m >= off2 && m < off2 + size));
